@@ -284,7 +284,7 @@ func runC01(c *Ctx) {
 		}
 		var bad []string
 		for _, s := range c.successEdges(g) {
-			ir.Walk(s.b, s.idx, nil, func(in ssa.Instruction) bool {
+			ir.WalkCtx(s.b, s.idx, s.pred, nil, func(in ssa.Instruction) bool {
 				if storeToField(next)(in) {
 					return false
 				}
